@@ -532,7 +532,7 @@ func (r *rawRowReader) Read(ctx context.Context) (*Row, error) {
 	voff += EncLenLen
 
 	for i, pos := 0, 0; i < cols; i++ {
-		if len(v) < EncIDLen {
+		if len(v)-voff < EncIDLen {
 			return nil, ErrCorruptedData
 		}
 
